@@ -2,6 +2,7 @@
 import TF.Drv.Proto
 import TF.Model.U32s
 import TF.Gen.U32sLoops
+import TF.Gen.U32sLoops2
 /-! driver handler for the family `u32s` (C19). Operands: `N` then limb lists (little endian). -/
 namespace TF.Drv.U32s
 open TF.Proto TF.U32s
@@ -37,6 +38,20 @@ def bitsAgree (n : Nat) (a : List Nat) : Bool :=
     (genPanic (TF.Gen.Loops.u32s_set_bit_ok n a i true) (TF.Gen.Loops.u32s_set_bit n a i true) == setBit a i true) &&
     (genPanic (TF.Gen.Loops.u32s_set_bit_ok n a i false) (TF.Gen.Loops.u32s_set_bit n a i false) == setBit a i false)
 
+/-! `rem_div`, `Ord::cmp`, `is_zero`/`zero`/`one`, `From<u32>`, `From<BigUint>`, `TryFrom<u64/u128>` regenerated from source by
+    tools/rs2lean_ext.py (`TF/Gen/U32sLoops2.lean`); same side-by-side evaluation. -/
+
+def bothS (gen model : String) : String :=
+  if gen == model then model else "GEN-MISMATCH gen=" ++ gen ++ " model=" ++ model
+
+def fmtQR : Option (List Nat × List Nat) → String
+  | some (q, r) => s!"ok:({fmtList q};{fmtList r})"
+  | none => "panic"
+
+def exceptToOption : Except String (List Nat) → Option (List Nat)
+  | .ok v => some v
+  | .error _ => none
+
 /-- operand of width `n` -/
 def limbs (n : Nat) (a : Arg) : Option (List Nat) := do
   let l ← a.natList?
@@ -52,28 +67,27 @@ def u32s : Handler
   | "rem", [.nat n, x, y] => do let a ← limbs n x; let b ← limbs n y; pure (okL (rem a b))
   | "rem_div", [.nat n, x, y] => do
       let a ← limbs n x; let b ← limbs n y
-      pure (if !(bitsAgree n a) then "GEN-MISMATCH get_bit/set_bit" else match remDiv a b with
-        | some (q, r) => s!"ok:({fmtList q};{fmtList r})"
-        | none => "panic")
+      pure (if !(bitsAgree n a) then "GEN-MISMATCH get_bit/set_bit" else
+        bothS (fmtQR (if TF.Gen.Loops.u32s_rem_div_ok n a b then some (TF.Gen.Loops.u32s_rem_div n a b) else none)) (fmtQR (remDiv a b)))
   | "mul_two", [.nat n, x] => do let a ← limbs n x; pure (both (genPanic (TF.Gen.Loops.u32s_mul_two_ok n a) (TF.Gen.Loops.u32s_mul_two n a)) (mulTwo a))
   | "div_two", [.nat n, x] => do let a ← limbs n x; pure (both (genPanic (TF.Gen.Loops.u32s_div_two_ok n a) (TF.Gen.Loops.u32s_div_two n a)) (divTwo a))
-  | "cmp", [.nat n, x, y] => do let a ← limbs n x; let b ← limbs n y; pure ("ok:" ++ fmtOrd (cmp a b))
+  | "cmp", [.nat n, x, y] => do let a ← limbs n x; let b ← limbs n y; pure (bothS ("ok:" ++ fmtOrd (TF.Gen.Loops.u32s_cmp n a b)) ("ok:" ++ fmtOrd (cmp a b)))
   | "eq", [.nat n, x, y] => do let a ← limbs n x; let b ← limbs n y; pure ("ok:" ++ fmtBool (a == b))
   | "sum", [.nat n, xs] => do
       let ls ← xs.natListList?
       if ls.all (wf n) then pure (okL (sum n ls)) else none
-  | "zero", [.nat n] => some (okL (some (zero n)))
-  | "one", [.nat n] => some (okL (one n))
-  | "is_zero", [.nat n, x] => do let a ← limbs n x; pure ("ok:" ++ fmtBool (isZero a))
-  | "from_u32", [.nat n, .nat v] => some (okL (fromU32 n v))
-  | "try_u64", [.nat n, .nat v] => some (okE (tryFromU64 n v))
-  | "try_u128", [.nat n, .nat v] => some (okE (tryFromU128 n v))
+  | "zero", [.nat n] => some (both (genPanic (TF.Gen.Loops.u32s_zero_ok n) (TF.Gen.Loops.u32s_zero n)) (some (zero n)))
+  | "one", [.nat n] => some (both (genPanic (TF.Gen.Loops.u32s_one_ok n) (TF.Gen.Loops.u32s_one n)) (one n))
+  | "is_zero", [.nat n, x] => do let a ← limbs n x; pure (bothS ("ok:" ++ fmtBool (TF.Gen.Loops.u32s_is_zero n a)) ("ok:" ++ fmtBool (isZero a)))
+  | "from_u32", [.nat n, .nat v] => some (both (genPanic (TF.Gen.Loops.u32s_from_u32_ok n v) (TF.Gen.Loops.u32s_from_u32 n v)) (fromU32 n v))
+  | "try_u64", [.nat n, .nat v] => some (bothS (if TF.Gen.Loops.u32s_try_from_u64_ok n v then okE (exceptToOption (TF.Gen.Loops.u32s_try_from_u64 n v)) else "panic") (okE (tryFromU64 n v)))
+  | "try_u128", [.nat n, .nat v] => some (bothS (if TF.Gen.Loops.u32s_try_from_u128_ok n v then okE (exceptToOption (TF.Gen.Loops.u32s_try_from_u128 n v)) else "panic") (okE (tryFromU128 n v)))
   | "to_big", [.nat n, x] => do let a ← limbs n x; pure s!"ok:{toBig a}"
   | "display", [.nat n, x] => do let a ← limbs n x; pure s!"ok:{toBig a}"
   | "from_big", [.nat n, x] => do
       -- the big integer is given by its base-2^32 digits (any number of them)
       let ds ← x.natList?
-      pure (okL (some (fromBig n (val ds))))
+      pure (both (genPanic (TF.Gen.Loops.u32s_from_biguint_ok n (val ds)) (TF.Gen.Loops.u32s_from_biguint n (val ds))) (some (fromBig n (val ds))))
   | "big_roundtrip", [.nat n, x] => do let a ← limbs n x; pure (okL (some (fromBig n (toBig a))))
   | "to_bfes", [.nat n, x] => do let a ← limbs n x; pure (okL (some (toBfes a)))
   | "encode", [.nat n, x] => do let a ← limbs n x; pure (okL (some (encode a)))
